@@ -3,11 +3,11 @@ package sim
 import (
 	"bytes"
 
+	"encoding/hex"
+	"fmt"
 	codectypes "github.com/cosmos/cosmos-sdk/codec/types"
 	authtypes "github.com/cosmos/cosmos-sdk/x/auth/types"
 	"mhubsim/hub"
-	"encoding/hex"
-	"fmt"
 	"sort"
 	"strconv"
 	"strings"
@@ -247,8 +247,8 @@ func (o *C17) afterSetKeys(w *World, r *TxResult) {
 // C16 — confirmations are attributable, unique and correctly queryable.
 type C16 struct {
 	BaseOracle
-	sigs    map[string]map[string][]byte // chain|storeIndexHex -> validator -> signature
-	bonded  map[string]bool
+	sigs   map[string]map[string][]byte // chain|storeIndexHex -> validator -> signature
+	bonded map[string]bool
 }
 
 func (*C16) Property() string { return "C16" }
